@@ -1,5 +1,128 @@
-//! Integration exchange-rate math (C20): thin dispatch onto the real functions.
-use serde_json::Value;
-pub fn call(_a: &Value) -> Result<Value, String> {
-    Err("NotImplemented".into())
+//! Integration exchange-rate math (C20): thin dispatch onto the real functions of the type crate and
+//! the kamino / solend / drift mocks crates. Arguments are big integers (I80F48 arguments as raw bits).
+use crate::num::{big_i, big_u, parse_i128};
+use fixed::types::I80F48;
+use marginfi_type_crate::types as ty;
+use serde_json::{json, Value};
+
+fn arg(a: &[Value], i: usize) -> Result<i128, String> {
+    a.get(i).and_then(parse_i128).ok_or_else(|| format!("BadArg{}", i))
+}
+fn au64(a: &[Value], i: usize) -> Result<u64, String> {
+    u64::try_from(arg(a, i)?).map_err(|_| "BadArgU64".to_string())
+}
+fn afx(a: &[Value], i: usize) -> Result<I80F48, String> {
+    Ok(I80F48::from_bits(arg(a, i)?))
+}
+fn opt_u(v: Option<u64>) -> Value {
+    match v {
+        Some(x) => json!({"def": true, "v": big_u(x as u128)}),
+        None => json!({"def": false}),
+    }
+}
+fn opt_i(v: Option<i128>) -> Value {
+    match v {
+        Some(x) => json!({"def": true, "v": big_i(x)}),
+        None => json!({"def": false}),
+    }
+}
+fn res_u<E>(v: Result<u64, E>) -> Value {
+    opt_u(v.ok())
+}
+
+fn kamino_reserve(avail: u64, supply: u64, dec: u64, slot: u64) -> kamino_mocks::state::MinimalReserve {
+    let mut r: kamino_mocks::state::MinimalReserve = bytemuck::Zeroable::zeroed();
+    r.available_amount = avail;
+    r.mint_total_supply = supply;
+    r.mint_decimals = dec;
+    r.slot = slot;
+    r
+}
+fn solend_reserve(avail: u64, supply: u64, dec: u8, slot: u64) -> solend_mocks::state::SolendMinimalReserve {
+    let mut r: solend_mocks::state::SolendMinimalReserve = bytemuck::Zeroable::zeroed();
+    r.liquidity_available_amount = avail;
+    r.collateral_mint_total_supply = supply;
+    r.liquidity_mint_decimals = dec;
+    r.last_update_slot = slot;
+    r
+}
+fn drift_market(cum: u128, dec: u32, ts: u64) -> drift_mocks::state::MinimalSpotMarket {
+    let mut m: drift_mocks::state::MinimalSpotMarket = bytemuck::Zeroable::zeroed();
+    m.cumulative_deposit_interest = cum.to_le_bytes();
+    m.decimals = dec;
+    m.last_interest_ts = ts;
+    m
+}
+
+fn eval(f: &str, a: &[Value]) -> Result<Value, String> {
+    Ok(match f {
+        "ty.c2l" => opt_u(ty::collateral_to_liquidity_from_scaled(au64(a, 0)?, afx(a, 1)?, afx(a, 2)?)),
+        "ty.l2c" => opt_u(ty::liquidity_to_collateral_from_scaled(au64(a, 0)?, afx(a, 1)?, afx(a, 2)?)),
+        "ty.roundtrip" => {
+            // liquidity -> collateral -> liquidity
+            let (l, liq, col) = (au64(a, 0)?, afx(a, 1)?, afx(a, 2)?);
+            opt_u(ty::liquidity_to_collateral_from_scaled(l, liq, col).and_then(|c| ty::collateral_to_liquidity_from_scaled(c, liq, col)))
+        }
+        "ty.adj_i64" => opt_i(i64::try_from(arg(a, 0)?).ok().and_then(|r| ty::adjust_i64(r, afx(a, 1).ok()?)).map(|x| x as i128)),
+        "ty.adj_u64" => opt_u(ty::adjust_u64(au64(a, 0)?, afx(a, 1)?)),
+        "ty.adj_i128" => opt_i(ty::adjust_i128(arg(a, 0)?, afx(a, 1)?)),
+        "ty.ratio" => opt_i(ty::liq_to_col_ratio(afx(a, 0)?, afx(a, 1)?).map(|x| x.to_bits())),
+        "ty.adj_sup_i64" => {
+            // price adjusted by the exchange rate of given supplies
+            let r = ty::liq_to_col_ratio(afx(a, 1)?, afx(a, 2)?);
+            opt_i(r.and_then(|r| i64::try_from(arg(a, 0).ok()?).ok().and_then(|p| ty::adjust_i64(p, r))).map(|x| x as i128))
+        }
+        "ty.scale" => match ty::scale_supplies(afx(a, 0)?, au64(a, 1)?, arg(a, 2)? as u8) {
+            Some((l, c)) => json!({"def": true, "v": big_i(l.to_bits()), "w": big_i(c.to_bits())}),
+            None => json!({"def": false}),
+        },
+        "ty.convdec" => opt_i(ty::convert_decimals(afx(a, 0)?, arg(a, 1)? as u8, arg(a, 2)? as u8).map(|x| x.to_bits())),
+        "kamino.c2l" => res_u(kamino_reserve(au64(a, 1)?, au64(a, 2)?, arg(a, 3)? as u64, 0).collateral_to_liquidity(au64(a, 0)?)),
+        "kamino.l2c" => res_u(kamino_reserve(au64(a, 1)?, au64(a, 2)?, arg(a, 3)? as u64, 0).liquidity_to_collateral(au64(a, 0)?)),
+        "kamino.roundtrip" => {
+            let r = kamino_reserve(au64(a, 1)?, au64(a, 2)?, arg(a, 3)? as u64, 0);
+            res_u(r.liquidity_to_collateral(au64(a, 0)?).and_then(|c| r.collateral_to_liquidity(c)))
+        }
+        "kamino.stale" => json!({"def": true, "b": kamino_reserve(1, 1, 6, au64(a, 0)?).is_stale(au64(a, 1)?)}),
+        "solend.c2l" => res_u(solend_reserve(au64(a, 1)?, au64(a, 2)?, arg(a, 3)? as u8, 0).collateral_to_liquidity(au64(a, 0)?)),
+        "solend.l2c" => res_u(solend_reserve(au64(a, 1)?, au64(a, 2)?, arg(a, 3)? as u8, 0).liquidity_to_collateral(au64(a, 0)?)),
+        "solend.roundtrip" => {
+            let r = solend_reserve(au64(a, 1)?, au64(a, 2)?, arg(a, 3)? as u8, 0);
+            res_u(r.liquidity_to_collateral(au64(a, 0)?).and_then(|c| r.collateral_to_liquidity(c)))
+        }
+        "solend.stale" => {
+            crate::rt::set_ctx_slot(au64(a, 1)?);
+            json!({"def": true, "b": solend_reserve(1, 1, 6, au64(a, 0)?).is_stale().unwrap_or(true)})
+        }
+        "drift.inc" => res_u(drift_market(arg(a, 1)? as u128, arg(a, 2)? as u32, 0).get_scaled_balance_increment(au64(a, 0)?)),
+        "drift.dec" => res_u(drift_market(arg(a, 1)? as u128, arg(a, 2)? as u32, 0).get_scaled_balance_decrement(au64(a, 0)?)),
+        "drift.wd" => res_u(drift_market(arg(a, 1)? as u128, arg(a, 2)? as u32, 0).get_withdraw_token_amount(au64(a, 0)?)),
+        "drift.roundtrip" => {
+            let m = drift_market(arg(a, 1)? as u128, arg(a, 2)? as u32, 0);
+            res_u(m.get_scaled_balance_increment(au64(a, 0)?).and_then(|s| m.get_withdraw_token_amount(s)))
+        }
+        "drift.adj_i64" => opt_i(i64::try_from(arg(a, 0)?).ok().and_then(|p| drift_market(arg(a, 1).ok()? as u128, 6, 0).adjust_i64(p).ok()).map(|x| x as i128)),
+        "drift.adj_i128" => opt_i(drift_market(arg(a, 1)? as u128, 6, 0).adjust_i128(arg(a, 0)?).ok()),
+        "drift.adj_u64" => res_u(drift_market(arg(a, 1)? as u128, 6, 0).adjust_u64(au64(a, 0)?)),
+        "drift.stale" => json!({"def": true, "b": drift_market(1, 6, au64(a, 0)?).is_stale(arg(a, 1)? as i64)}),
+        _ => return Err("UnknownFn".into()),
+    })
+}
+
+/// {"op":"integ","fn":name,"args":[..],"args2":[..]?} -> {"r": result, "r2": result for args2}
+pub fn call(a: &Value) -> Result<Value, String> {
+    let f = a["fn"].as_str().ok_or("NoFn")?;
+    let args = a["args"].as_array().cloned().unwrap_or_default();
+    let guard = |args: &[Value]| -> Value {
+        match std::panic::catch_unwind(std::panic::AssertUnwindSafe(|| eval(f, args))) {
+            Ok(Ok(v)) => v,
+            Ok(Err(e)) => json!({"def": false, "bad": e}),
+            Err(_) => json!({"def": false, "panic": true}),
+        }
+    };
+    let mut out = json!({"r": guard(&args)});
+    if let Some(a2) = a.get("args2").and_then(|x| x.as_array()) {
+        out["r2"] = guard(a2);
+    }
+    Ok(out)
 }
